@@ -178,6 +178,9 @@ fn map_and_sort(
     mut raw_tokens: Vec<(vhdl_lang::SrcPos, vhdl_lang::EntRef<'_>)>,
 ) -> Vec<CachedToken> {
     raw_tokens.sort_by(|(pos_a, _), (pos_b, _)| pos_a.cmp(pos_b));
+    // A file that is part of several libraries is analyzed once per library
+    // and yields every reference once per library
+    raw_tokens.dedup_by(|(pos_a, _), (pos_b, _)| pos_a == pos_b);
 
     raw_tokens
         .into_iter()
